@@ -33,6 +33,14 @@ CLAIMED = {
             "Trusted: Coq kernel; hand model of *Sel.match / Selection / sel / Fn.filter / Distribution.filter / Fn.merge in coq/Model/Gfi.v tied to /repo by "
             "harness/worker_sel.py + coq/Model/CorrSel.v (runs natively, no overlay). No axioms.",
             "Coq proof by structural induction over selection syntax and choice maps + exhaustive/differential correspondence (vm_compute)", "7/C16"),
+    "C10": ("Theorems for ALL targets/proposals/constraints/outcomes: per-particle log weight of init/extend = log p(choices, obs) - log q(proposed or unconstrained choices) "
+            "(default proposal: C10_default_weight; custom proposal with merge precedence: C10_custom_weight / C10_extend_custom_weight), rejuvenation keeps weights for any kernel, "
+            "resampling keeps exp(lml) for any index vector. The expectation statement (exp(lml) unbiased for the evidence) is NOT mechanised (partial): it needs the finite-support "
+            "expectation semantics that is not built yet. Correspondence: hand-composed pipelines under seed with real dyadic categorical sites; rejuvenation_smc's own control "
+            "skeleton (ESS trigger inside cond/scan) is not yet covered by a case type.",
+            "Trusted: Coq kernel; model coq/Model/Smc.v (particle-level init/extend/rejuvenate) + Model/Resample.v; harness/worker_smc.py (log weights divided by ln 2 and rounded; "
+            "exp(lml) compared within 5e-4 relative in exact rationals). No axioms.",
+            "Coq proof (corollaries of the generate theorem; field identity for resampling) + specification judgement of implementation snapshots (vm_compute)", "7/C10"),
     "C12": ("Theorem C12_systematic_floor_ceil: for EVERY non-negative weight vector with positive total (0 = -inf log weight), every N>=1 and EVERY offset u=a/b in (0,1), "
             "particle i gets floor(N w_i) or ceil(N w_i) copies (exact integer model of cumsum/searchsorted; proof by counting positions below each cumulative weight); zero weight => no copies; "
             "resample: each output particle is the whole input particle at its index, weights reset, diagnostics = pre-resampling normalised weights, exp(lml) unchanged (field identity in Q). "
